@@ -25,10 +25,14 @@ import (
 	"github.com/NVIDIA/KAI-scheduler/pkg/scheduler/framework"
 )
 
-// draManager returns the session's DRA manager, or nil when the snapshot holds no claim (nothing to look at; the
-// manager is not even touched then, so sessions of cases without DRA objects behave exactly as before).
+// DRAEnabled is set by the driver of a case: the case contains resource.k8s.io objects (decided from the generated
+// API objects, not from anything the scheduler reports - a scheduler that lost its claims must not blind the monitor).
+var DRAEnabled bool
+
+// draManager returns the session's DRA manager, or nil for cases without DRA objects (the manager is not even touched
+// then, so those sessions behave exactly as before).
 func draManager(ssn *framework.Session) k8sframework.SharedDRAManager {
-	if ssn == nil || ssn.ClusterInfo == nil || len(ssn.ClusterInfo.ResourceClaims) == 0 {
+	if !DRAEnabled || ssn == nil || ssn.ClusterInfo == nil {
 		return nil
 	}
 	pl := ssn.InternalK8sPlugins()
@@ -200,6 +204,8 @@ func podClaimName(p *v1.Pod, pc *v1.PodResourceClaim) string {
 //   - a claim is allocated only if somebody holds it: a pod as above, a pod that is really terminating (deletion
 //     timestamp in the API object) or finished (still in reservedFor until the claim controller removes it), or a
 //     consumer the session does not know; a pod that is pending or was evicted in this session holds nothing;
+//   - a pod that is Running / Bound / Binding in the API and a consumer of an allocated API claim uses exactly the
+//     devices of the API object (an allocation does not change while it has consumers);
 //   - no device belongs to two claims;
 //   - the device set given to the allocator equals the union of the devices of the allocated claims (plus the
 //     allocations of in-flight BindRequests).
@@ -229,6 +235,11 @@ func CheckClaims(ssn *framework.Session, st map[string]int) []string {
 		}
 	}
 	users := claimUsers(ssn)
+	// the API objects the session was opened on (snapshot of the claim lister)
+	api := map[string]*resourceapi.ResourceClaim{}
+	for _, c := range ssn.ClusterInfo.ResourceClaims {
+		api[c.Namespace+"/"+c.Name] = c
+	}
 	var out []string
 	owner := map[string]string{} // device -> claim
 	union := map[string]bool{}
@@ -276,6 +287,35 @@ func CheckClaims(ssn *framework.Session, st map[string]int) []string {
 					out = append(out, fmt.Sprintf("claim %s unallocated:%v:%s: pod %s is %v on node %s but its claim holds no device", k, t.Status, shared, t.Name, t.Status, t.NodeName))
 				} else if !reserved[string(t.UID)] {
 					out = append(out, fmt.Sprintf("claim %s reservedFor-missing:%v:%s: pod %s is %v on node %s but is not in reservedFor %v", k, t.Status, shared, t.Name, t.Status, t.NodeName, reservedList))
+				}
+				// a pod that holds its place in the API (Running / Bound / being bound - not a placement of this session)
+				// and is a consumer of the claim in the API uses the devices the API object names: an allocation is
+				// immutable while it has consumers
+				if ac := api[k]; ac != nil && ac.Status.Allocation != nil && len(devs) > 0 &&
+					(t.Status == pod_status.Running || t.Status == pod_status.Bound || t.Status == pod_status.Binding) {
+					for _, r := range ac.Status.ReservedFor {
+						if r.Resource == "pods" && string(r.UID) == string(t.UID) {
+							st["claim_api_allocation_comparisons"]++
+							if want := devIDs(ac.Status.Allocation); strings.Join(want, ",") != strings.Join(devs, ",") {
+								out = append(out, fmt.Sprintf("claim %s devices-differ-from-api:%v:%s: pod %s is %v on node %s and uses %v according to the API object, the scheduler's view says %v",
+									k, t.Status, shared, t.Name, t.Status, t.NodeName, want, devs))
+							}
+						}
+					}
+				}
+				// a pod that is being bound uses the devices its BindRequest (API object) names, unless the claim was
+				// already allocated (then the binder keeps the existing allocation, compared above)
+				if ac := api[k]; ac != nil && ac.Status.Allocation == nil && len(devs) > 0 && t.Status == pod_status.Binding &&
+					t.BindRequest != nil && t.BindRequest.BindRequest != nil {
+					for _, ra := range t.BindRequest.BindRequest.Spec.ResourceClaimAllocations {
+						if ra.Name == u.pc && ra.Allocation != nil {
+							st["claim_api_allocation_comparisons"]++
+							if want := devIDs(ra.Allocation); strings.Join(want, ",") != strings.Join(devs, ",") {
+								out = append(out, fmt.Sprintf("claim %s devices-differ-from-api:%v:%s: pod %s is being bound to node %s with %v according to its BindRequest, the scheduler's view says %v",
+									k, t.Status, shared, t.Name, t.NodeName, want, devs))
+							}
+						}
+					}
 				}
 				for _, d := range devs {
 					if n, ok := devNode[d]; !ok {
